@@ -225,86 +225,6 @@ def instanceMethods [BEq K] [OfNat K 0] (nq : Nat) (lockLevel : Level) (lockedU 
     | some md => if md.disabled then Methods.allFree else calcAllMethods md.level md.method
     | none => Methods.allFree
 
-/-- one mobilizer as seen by the instance-stage partition and the pool-filling realize methods -/
-structure MobIn (K : Type) where
-  qx : Nat
-  ux : Nat
-  nq : Nat
-  nu : Nat
-  lockLevel : Level
-  lockedQ : List K
-  lockedU : List K
-  motion : Option MotionDesc
-  /-- what the Motion's callbacks deliver for this mobilizer at the current state, already in the form the pools
-  hold: `mPos` = calcPrescribedPosition (nq), `mVel` = calcPrescribedVelocity resp. N⁻¹·calcPrescribedPositionDot (nu),
-  `mAcc` = calcPrescribedAcceleration / VelocityDot resp. N⁻¹(PositionDotDot − Ṅu) (nu) -/
-  mPos : List K
-  mVel : List K
-  mAcc : List K
-
-def MobIn.methods [BEq K] [OfNat K 0] (m : MobIn K) : Methods :=
-  instanceMethods m.nq m.lockLevel m.lockedU m.motion
-
-/-- `range' start n` if selected -/
-def slotsIf (sel : Bool) (start n : Nat) : List Nat := if sel then List.range' start n else []
-
-/-- index lists: walk the mobilizers in order, push `start+i` for those whose method satisfies `sel`
-(`ic.presQ.push_back(QIndex(qx+i))` etc.).  Each entry is (first slot `qx`/`ux` from the model cache, slot count
-in use, method).  Slots are allocated per mobilizer for the *maximum* nq, so the starts are given, not summed. -/
-def collect (sel : Method → Bool) : List (Nat × Nat × Method) → List Nat
-  | [] => []
-  | (start, n, m) :: rest => slotsIf (sel m) start n ++ collect sel rest
-
-/-- pool values in the same walk -/
-def collectVals (sel : Method → Bool) : List (Method × List K) → List K
-  | [] => []
-  | (m, vs) :: rest => (if sel m then vs else []) ++ collectVals sel rest
-
-def isPres (m : Method) : Bool := m == .prescribed
-def isZero (m : Method) : Bool := m == .zero
-def isFree (m : Method) : Bool := m == .free
-def notFree (m : Method) : Bool := m != .free
-
-/-- `SBInstanceCache` index arrays and the three pools -/
-structure Partition (K : Type) where
-  presQ : List Nat
-  zeroQ : List Nat
-  freeQ : List Nat
-  presU : List Nat
-  zeroU : List Nat
-  freeU : List Nat
-  presUDot : List Nat
-  zeroUDot : List Nat
-  freeUDot : List Nat
-  presForce : List Nat
-  qPool : List K
-  uPool : List K
-  udotPool : List K
-  methods : List Methods
-
-/-- `realizeSubsystemInstanceImpl` (index arrays) + `MobilizedBodyImpl::realizeTime/Position/Dynamics` (pools).
-A Weld (`nq = 0`) is skipped by the `continue` in the C++ loop; it has no slots anyway. -/
-def partition [BEq K] [OfNat K 0] (mobs : List (MobIn K)) : Partition K :=
-  let ms := mobs.map (fun m => m.methods)
-  let live := (mobs.zip ms).filter (fun p => p.1.nq != 0)
-  let qs := live.map (fun p => (p.1.qx, p.1.nq, p.2.q))
-  let us := live.map (fun p => (p.1.ux, p.1.nu, p.2.u))
-  let uds := live.map (fun p => (p.1.ux, p.1.nu, p.2.udot))
-  let locked (m : MobIn K) : Bool := m.lockLevel != .noLevel
-  { presQ := collect isPres qs, zeroQ := collect isZero qs, freeQ := collect isFree qs,
-    presU := collect isPres us, zeroU := collect isZero us, freeU := collect isFree us,
-    presUDot := collect isPres uds, zeroUDot := collect isZero uds, freeUDot := collect isFree uds,
-    presForce := collect notFree uds,
-    qPool := collectVals isPres (live.map (fun p => (p.2.q, if locked p.1 then p.1.lockedQ else p.1.mPos))),
-    uPool := collectVals isPres (live.map (fun p => (p.2.u, if locked p.1 then p.1.lockedU else p.1.mVel))),
-    udotPool := collectVals isPres (live.map (fun p => (p.2.udot, if locked p.1 then p.1.lockedU else p.1.mAcc))),
-    methods := ms }
-
-/-- `System::prescribe` on the matter subsystem's q and u -/
-def prescribe [BEq K] [OfNat K 0] (mobs : List (MobIn K)) (q u : List K) : List K × List K :=
-  let P := partition mobs
-  (prescribeQ q P.presQ P.qPool P.zeroQ, prescribeU u P.presU P.uPool P.zeroU)
-
 /-! ## (d) forward dynamics with prescribed mobilities = block elimination on the dense mass matrix -/
 section dense
 variable [Add K] [Sub K] [Mul K] [Neg K] [Div K] [OfNat K 0]
@@ -367,5 +287,125 @@ def motionPower (tau : List K) (p : List Nat) (u : List K) : K :=
   (tau.zip (pick u p)).foldl (fun acc tu => acc - tu.1 * tu.2) 0
 
 end dense
+
+/-! ## (c') instance-stage partition, pools, `System::prescribe` -/
+section partitionSec
+variable [Add K] [Sub K] [Mul K] [Neg K] [Div K] [OfNat K 0] [BEq K]
+
+/-- one mobilizer as seen by `realizeSubsystemInstanceImpl` and by the pool-filling
+`MobilizedBodyImpl::realizeTime / realizePosition / realizeDynamics` -/
+structure MobIn (K : Type) where
+  qx : Nat
+  ux : Nat
+  nq : Nat
+  nu : Nat
+  lockLevel : Level
+  lockedQ : List K
+  lockedU : List K
+  motion : Option MotionDesc
+  /-- raw results of the Motion's callbacks at the current state: `calcPrescribedPosition / PositionDot /
+  PositionDotDot` (nq each), `calcPrescribedVelocity / VelocityDot / Acceleration` (nu each); a callback that the
+  Motion's level does not use may hold anything -/
+  cbPos : List K
+  cbPosDot : List K
+  cbPosDotDot : List K
+  cbVel : List K
+  cbVelDot : List K
+  cbAcc : List K
+  /-- kinematic coupling of this mobilizer: its block of `N⁻¹` (nu rows of nq entries; `u = N⁻¹ q̇`) and `Ṅ u` (nq) -/
+  nInv : List (List K)
+  nDotU : List K
+
+def MobIn.methods (m : MobIn K) : Methods :=
+  instanceMethods m.nq m.lockLevel m.lockedU m.motion
+
+def MobIn.locked (m : MobIn K) : Bool := m.lockLevel != .noLevel
+
+/-- `realizeTime`: the q pool of a q-prescribed mobilizer: the lock value, else `calcPrescribedPosition` -/
+def MobIn.qPoolVals (m : MobIn K) : List K := if m.locked then m.lockedQ else m.cbPos
+
+/-- `realizePosition`: the u pool of a u-prescribed mobilizer: the lock value; for a holonomic (position-level) Motion
+`u = N⁻¹ · calcPrescribedPositionDot` (the code skips the multiplication when q̇ ≡ u, where `N⁻¹ = 1`); else
+`calcPrescribedVelocity` -/
+def MobIn.uPoolVals (m : MobIn K) : List K :=
+  if m.locked then m.lockedU
+  else if m.methods.q == .prescribed then matVec m.nInv m.cbPosDot
+  else m.cbVel
+
+/-- `realizeDynamics`: the udot pool: the lock value; holonomic: `u̇ = N⁻¹ (calcPrescribedPositionDotDot − Ṅ u)`;
+nonholonomic: `calcPrescribedVelocityDot`; acceleration-only: `calcPrescribedAcceleration` -/
+def MobIn.udotPoolVals (m : MobIn K) : List K :=
+  if m.locked then m.lockedU
+  else if m.methods.q == .prescribed then matVec m.nInv (vsub m.cbPosDotDot m.nDotU)
+  else if m.methods.u == .prescribed then m.cbVelDot
+  else m.cbAcc
+
+/-- `range' start n` if selected -/
+def slotsIf (sel : Bool) (start n : Nat) : List Nat := if sel then List.range' start n else []
+
+/-- index lists: walk the mobilizers in order, push `start+i` for those whose method satisfies `sel`
+(`ic.presQ.push_back(QIndex(qx+i))` etc.).  Each entry is (first slot `qx`/`ux` from the model cache, slot count
+in use, method).  Slots are allocated per mobilizer for the *maximum* nq, so the starts are given, not summed. -/
+def collect (sel : Method → Bool) : List (Nat × Nat × Method) → List Nat
+  | [] => []
+  | (start, n, m) :: rest => slotsIf (sel m) start n ++ collect sel rest
+
+/-- pool values in the same walk -/
+def collectVals (sel : Method → Bool) : List (Method × List K) → List K
+  | [] => []
+  | (m, vs) :: rest => (if sel m then vs else []) ++ collectVals sel rest
+
+def isPres (m : Method) : Bool := m == .prescribed
+def isZero (m : Method) : Bool := m == .zero
+def isFree (m : Method) : Bool := m == .free
+def notFree (m : Method) : Bool := m != .free
+
+/-- `SBInstanceCache` index arrays and the three pools -/
+structure Partition (K : Type) where
+  presQ : List Nat
+  zeroQ : List Nat
+  freeQ : List Nat
+  presU : List Nat
+  zeroU : List Nat
+  freeU : List Nat
+  presUDot : List Nat
+  zeroUDot : List Nat
+  freeUDot : List Nat
+  presForce : List Nat
+  qPool : List K
+  uPool : List K
+  udotPool : List K
+  methods : List Methods
+
+/-- the mobilizers that own slots: Ground / Weld (`nq = 0`) are skipped by the `continue` of the C++ loop -/
+def liveMobs (mobs : List (MobIn K)) : List (MobIn K) := mobs.filter (fun m => m.nq != 0)
+
+def qEntries (mobs : List (MobIn K)) : List (Nat × Nat × Method) := (liveMobs mobs).map (fun m => (m.qx, m.nq, m.methods.q))
+def uEntries (mobs : List (MobIn K)) : List (Nat × Nat × Method) := (liveMobs mobs).map (fun m => (m.ux, m.nu, m.methods.u))
+def udotEntries (mobs : List (MobIn K)) : List (Nat × Nat × Method) := (liveMobs mobs).map (fun m => (m.ux, m.nu, m.methods.udot))
+
+/-- `realizeSubsystemInstanceImpl` (index arrays) + `MobilizedBodyImpl::realizeTime/Position/Dynamics` (pools) -/
+def partition (mobs : List (MobIn K)) : Partition K :=
+  let live := liveMobs mobs
+  { presQ := collect isPres (qEntries mobs), zeroQ := collect isZero (qEntries mobs), freeQ := collect isFree (qEntries mobs),
+    presU := collect isPres (uEntries mobs), zeroU := collect isZero (uEntries mobs), freeU := collect isFree (uEntries mobs),
+    presUDot := collect isPres (udotEntries mobs), zeroUDot := collect isZero (udotEntries mobs),
+    freeUDot := collect isFree (udotEntries mobs), presForce := collect notFree (udotEntries mobs),
+    qPool := collectVals isPres (live.map (fun m => (m.methods.q, m.qPoolVals))),
+    uPool := collectVals isPres (live.map (fun m => (m.methods.u, m.uPoolVals))),
+    udotPool := collectVals isPres (live.map (fun m => (m.methods.udot, m.udotPoolVals))),
+    methods := mobs.map (fun m => m.methods) }
+
+/-- `System::prescribe` on the matter subsystem's q and u -/
+def prescribe (mobs : List (MobIn K)) (q u : List K) : List K × List K :=
+  let P := partition mobs
+  (prescribeQ q P.presQ P.qPool P.zeroQ, prescribeU u P.presU P.uPool P.zeroU)
+
+/-- the known entries of udot after `calcTreeAccelerations`' scatter -/
+def knownUDot (mobs : List (MobIn K)) (udot : List K) : List K :=
+  let P := partition mobs
+  scatterKnownUDot udot P.presUDot P.udotPool P.zeroUDot
+end partitionSec
+
 end scalar
 end C10
